@@ -5,6 +5,7 @@
 #include <pybind11/pybind11.h>
 #include <pybind11/stl.h>
 
+#include "awkward/datetime_util.h"
 #include "awkward/type/Type.h"
 #include "awkward/python/content.h"
 
@@ -514,10 +515,10 @@ make_NumpyForm(const py::handle& m, const std::string& name) {
           dt = "c32";
           break;
         case ak::util::dtype::datetime64:
-          dt = "?";
+          dt = std::string("M8") + ak::util::format_to_units(self.format());
           break;
         case ak::util::dtype::timedelta64:
-          dt = "?";
+          dt = std::string("m8") + ak::util::format_to_units(self.format());
           break;
         default:
           // FIXME: record arrays; need to parse 'format'
